@@ -59,6 +59,17 @@ def Op.honoursCapacity : Op → Bool
   | .insert _ _ | .yank _ _ | .update _ _ => true
   | _ => false
 
+/-- operations whose answer tells the caller whether anything happened (`false` / `None` = nothing): every
+    `bool` / `Option` answer except `insert_str`'s (which says "appended at the end") -/
+def Op.answersChange : Op → Bool
+  | .insertStr _ _ | .isEndOfInput | .nextPos _ => false
+  | _ => true
+
+/-- the answer "nothing happened" -/
+def Ret.saysNothing : Ret → Bool
+  | .bool false | .optBool none | .optText none => true
+  | _ => false
+
 /-- contract of the explicit-index primitives (what the code `assert!`s or slices by contract);
     every cursor-relative operation accepts every argument value -/
 def Op.argsValid (lb : LB) : Op → Bool
@@ -77,17 +88,20 @@ def wfB (lb : LB) : Bool := boundaryB lb.buf lb.pos
 /-- outcome of one operation as observed: `none` = panic -/
 abbrev Outcome := Option (Text × Nat × Ret × List Notif)
 
-/-- the five conjuncts of C03 on one observed step; `capKnown` = the capacity if it is known to be
+/-- the five conjuncts of C03 on one observed step (and a sixth, which C02 rests on and the API documents: an
+    operation that answers "nothing happened" left text and cursor alone — it is what caught D44); `capKnown` = the capacity if it is known to be
     still the one the buffer was created with. Returns `none` when satisfied, else the reason. -/
 def c03Step (old : LB) (capKnown : Option Nat) (op : Op) (o : Outcome) : Option String :=
   if !wfB old || !Op.argsValid old op then none
   else
     match o with
     | none => some "panic"
-    | some (buf, pos, _, ns) =>
+    | some (buf, pos, r, ns) =>
       if !boundaryB buf pos then some "cursor-off-boundary"
       else if replay ns old.buf != some buf then some "notifications-do-not-replay"
       else if Op.isMotionOrCopy op && (buf != old.buf || !ns.all Notif.isMarker) then some "motion-changed-text"
+      else if Op.answersChange op && Ret.saysNothing r && (buf != old.buf || pos != old.pos) then
+        some "said-nothing-but-changed"
       else
         match capKnown with
         | some c =>
